@@ -1,5 +1,6 @@
 """INV - inventories over the whole model: who writes a field / a global, who
 calls a function, statement-order helpers."""
+import re
 from .astutil import kids, strip, walk, callee_ref, render, struct_name, pointee, unqual, loc
 from .vals import is_assert_stmt, assert_condition
 
@@ -220,7 +221,7 @@ def _ends_in_exit(stmt):
     return False
 
 
-def dominating_conditions(cx, func, node):
+def dominating_conditions(cx, func, node, _depth=0):
     """Canonical condition strings known to hold whenever `node` executes: conditions of enclosing if-branches (negated
     for else-branches) and negations of earlier sibling guards whose branch always leaves (`if (c) return;` ... node).
     A leading '!' marks negation; double negations are removed; top-level conjunctions of positive conditions and
@@ -283,6 +284,29 @@ def dominating_conditions(cx, func, node):
         res.append(("!" if neg else "") + core)
     for c in out:
         split(c)
+    # a boolean local that holds: if only one of its assignments can make it true (the others store 0), the conditions
+    # of that assignment and the assigned test hold too
+    if _depth < 3:
+        from .astutil import int_value
+        for c in list(res):
+            if not re.fullmatch(r"[A-Za-z_]\w*", c):
+                continue
+            sts = [(r_, n_) for l, r_, k_, n_ in stores(func)
+                   if k_ == "=" and r_ is not None and strip(l, casts=True).get("kind") == "DeclRefExpr" and
+                   strip(l, casts=True)["ref"]["name"] == c]
+            for d in walk(func.body):
+                if d["kind"] == "VarDecl" and d.get("name") == c and kids(d):
+                    sts.append((kids(d)[0], d))
+            can_true = [(r_, n_) for r_, n_ in sts if int_value(strip(r_, casts=True)) != 0]
+            if len(can_true) == 1 and len(sts) >= 1:
+                r_, n_ = can_true[0]
+                if n_ is not node:
+                    for extra in dominating_conditions(cx, func, n_, _depth + 1):
+                        if extra not in res:
+                            res.append(extra)
+                    if int_value(strip(r_, casts=True)) is None:
+                        before = len(res)
+                        split(cx.canon(r_))
     return res
 
 
